@@ -1,4 +1,5 @@
 import Restli.Proofs.NoPanic
+import Restli.Proofs.Fuel
 /-! # C04 — decoder robustness (ROR2 readers and generated unmarshalers)
 
 The reader model transliterates every Go index expression `u.data[u.pos]` / slice as a match
@@ -7,7 +8,8 @@ branch: for **every** byte string, schema, type, exclusion spec and ignore count
 `NewRor2ReaderWithExcludedFields(data, …)` + generated `UnmarshalRestLi` returns a value or an
 error. (Before the bounds-check repair in `/repo` this was false: `"("`, `"(a:(b:1)"`, `"(a:1,"`.)
 
-JSON lexing safety is easyjson's and is only observed (harness), not proved; the HTTP-level
+Termination: the model's recursion is bounded by fuel, and `c04_ror2_never_out_of_fuel` shows
+the bound is never hit. JSON lexing safety is easyjson's and is only observed (harness), not proved; the HTTP-level
 clauses (4xx, no resource invocation) belong to the routing/end-to-end models. -/
 namespace Restli.Codec
 
@@ -26,6 +28,21 @@ and the tracker call it -/
 theorem c04_pathspec_never_panics (p : PathSpec) (path : List Bytes) (h : path ≠ []) :
     gmatches p path ≠ .panic :=
   gmatches_ne_panic p path h
+
+/-- **no input makes the reader model run forever**: the fuel `unmarshalRor2` starts with is never
+exhausted, for any byte string, schema, type or spec — every recursive call either descends one
+level of generated code or consumes input, and input is never pushed back (`Proofs/Fuel.lean`:
+an explicit measure `2·remaining + k` per function, proved by mutual induction). The model is
+therefore a total function whose outcomes are a value, an error, or — for hexadecimal float syntax
+only — the model declining. -/
+theorem c04_ror2_never_out_of_fuel (c : RCfg) (ty : Ty) (data : Bytes) :
+    unmarshalRor2 c ty data ≠ .fuel :=
+  unmarshalRor2_ne_fuel c ty data
+
+/-- … and a successful read never leaves more input than it was given, at any position, for all
+six reader functions, whenever the fuel is at least `2·remaining + 5` -/
+theorem c04_ror2_reader_functions_consume (c : RCfg) (fuel : Nat) : FuelOK c fuel :=
+  fuelOK c fuel
 
 /-- the one way `genericMatches` *can* panic: an empty path against a non-empty spec (Go indexes
 `path[0]`); no caller does this -/
